@@ -104,6 +104,14 @@ def extra_run(man, tier, seed):
                     base[i] = v
                     alines.append(f'{lean} - ' + ' '.join(enc(x) for x in base))
                     ameta.append((lean, fld, v))
+    # list-valued constructors: weight vectors of the documented domain (entries >= 0 incl. -0.0 and subnormals, finite,
+    # at least one positive; Dirichlet: all positive)
+    for lean, lists in (('Categorical.new', [[-0.0, 1.0, 3.0], [1.0, -0.0], [0.0, 2.0], [5e-324, 1.0], [1e300, 1e300], [1e-300, 1e-300], [7.0]]),
+                        ('Dirichlet.new', [[5e-324, 1.0], [1e300, 2.0], [1e-300], [0.5, 0.5, 0.5]])):
+        if lean in man['defs'] and lean not in skipped:
+            for ws in lists:
+                alines.append(f'{lean} - {enc(ws)}')
+                ameta.append((lean, 'weights' if 'Cat' in lean else 'alphas', ws))
     aimpl, _ = run_pair(alines, want_model=False) if alines else ([], None)
     for line, (lean, fld, v), a in zip(alines, ameta, aimpl):
         if a.startswith('E:') or a in ('PANIC', 'HANG'):
